@@ -3,7 +3,7 @@
 # (cNN_*.patch -> CNN; m40_* -> C04) on a scratch copy; prints one line per mutant.
 # Controls expected to stay silent are listed in EXPECT_SILENT.
 export VERIF_ST_DIR=${VERIF_ST_DIR:-/tmp/st_all}
-EXPECT_SILENT="c13_stream_polled_before_task c11_buffered_control_channel c13_progress_channel_buffered c13_result_before_drain c14_first_seen_failure_changes_flow"
+EXPECT_SILENT="c13_stream_polled_before_task c11_buffered_control_channel c13_progress_channel_buffered c14_first_seen_failure_changes_flow"
 cd /verif
 for f in selftest/mutants/${1:-*}.patch; do
   n=$(basename $f .patch)
